@@ -9,6 +9,12 @@ use std::time::{Duration, Instant};
 
 fn mk(seed: u64) -> (Vec<u8>, Vec<u8>) {
     let mut r = Rng(seed);
+    if seed % 3 == 2 {
+        // an UNCHANGED file (the delta is one whole-basis copy): 16 blocks, exactly one block, a short last block
+        let n = [16 * 512, 512, 3 * 512 + 100][(seed / 3 % 3) as usize];
+        let basis: Vec<u8> = (0..n).map(|_| r.next() as u8).collect();
+        return (basis.clone(), basis);
+    }
     let n = 2048 + r.below(3000) as usize;
     let basis: Vec<u8> = (0..n).map(|_| r.next() as u8).collect();
     let mut src = basis.clone();
@@ -39,10 +45,13 @@ fn mutate(code: u32, basis: &mut Vec<u8>, d: &mut Delta) -> String {
         15 => { d.checksum = StrongHash::zero(); "checksum zeroed".into() }
         16 => { d.basis_size = 0; "basis_size = 0".into() }
         17 => { d.source_size = u64::MAX; "source_size = MAX".into() }
-        _ => { basis.clear(); "empty basis".into() }
+        18 => { basis.clear(); "empty basis".into() }
+        19 => { basis.extend_from_slice(b"extended-by-a-tail"); "basis extended by 18 bytes".into() }
+        20 => { if let Some(l) = basis.last_mut() { *l ^= 1; } "last basis byte flipped".into() }
+        _ => { let n = basis.len(); *basis = (0..n).map(|i| (i * 7 + 3) as u8).collect(); "unrelated basis of the same size".into() }
     }
 }
-pub const NMUT: u32 = 19;
+pub const NMUT: u32 = 22;
 
 fn run_case(engine: u8, seed: u64, code: u32) -> Option<String> {
     let (mut basis, src) = mk(seed);
